@@ -38,7 +38,7 @@ ID = "C09"
 PROP_FILE = "props/C09.v"
 MODEL_TARGETS = ["theories/Flow.vo"]
 THEOREMS = ["C09_ids", "C09_pairs_sound", "C09_arrow_placement", "C09_build_complete", "C09_detect_final_perm",
-            "C09_chain", "C09_chain_minus_one", "C09_no_helpers"]
+            "C09_chain", "C09_chain_minus_one", "C09_no_helpers", "C09_sync_tag_read_exactly"]
 ALLOWED_AXIOMS = []
 MANIFEST = {
     "text": "Proof (partial for whole-stream completeness). Coq theorems over an executable model (Flow.v) of "
